@@ -3,8 +3,10 @@ import Driver.ValueIO
 
 * `render <r|o|l> <n|t|f> <val>`   → Micheline line of `to_micheline_value(mode, lazy_diff)` | `err`
 * `parse <type as Micheline> | <Micheline>` → value tokens of `from_micheline_value` | `err`
-* `fmt <int>` → `format_timestamp` text (cross-check of the civil-date arithmetic with `datetime`)
-* `tsparse <hex of the string>` → integer of `strict_rfc3339` | `none`
+* `fmt <int>` → `format_timestamp` text (`Civil.fmtTimestamp` with the year padding read from the source) | `err`
+* `tsparse <hex of the string>` → integer of `strict_rfc3339.rfc3339_to_timestamp` (`Civil.parseTimestamp`) | `none`
+* `civil <days>` → `y m d` of `Civil.civilFromDays` (vs `datetime.date.fromordinal`)
+* `days <y> <m> <d>` → `Civil.daysFromCivil` (vs `datetime.date.toordinal`), `invalid` if not a date of the calendar
 
 Value tokens: `u` · `t`/`f` · `i<int>` · `m<int>` (timestamp) · `r<int>` (bls12_381_fr) · `s<hex>` · `b<hex>` ·
 `d<kind>:<tag>:<payload>:<entrypoint>` · `n` · `o v` · `L v` · `R v` · `p0|p1 a b` · `l<n> v…` · `e<n> v…` (set) ·
@@ -34,8 +36,20 @@ def handle (line : String) : String :=
     | _, _ => "bad-op"
   | ["fmt", t] =>
     match parseInt t with
-    | some t => Inst.fmtTs t
+    | some t =>
+      match Civil.fmtTimestamp (Generated.C11.yearPadded == some true) t with
+      | some cs => String.ofList cs
+      | none => "err"
     | none => "bad-op"
+  | ["civil", z] =>
+    match parseInt z with
+    | some z => let c := Civil.civilFromDays z; s!"{c.1} {c.2.1} {c.2.2}"
+    | none => "bad-op"
+  | ["days", y, m, d] =>
+    match parseInt y, parseInt m, parseInt d with
+    | some y, some m, some d =>
+      if 1 ≤ m ∧ m ≤ 12 ∧ 1 ≤ d ∧ d ≤ Civil.monthLen y m then toString (Civil.daysFromCivil y m d) else "invalid"
+    | _, _, _ => "bad-op"
   | ["tsparse", h] =>
     match hexToString h with
     | some s => match Inst.parseTs s with
